@@ -240,6 +240,20 @@ CLAIMED = {
              'thorough.',
         technique='TLA+ dense definitions + code-shaped sweep models checked by TLC + replay of every TLC-enumerated descriptor on the real operators with exact integer comparison',
         design_ref='3 C16'),
+    'C07': dict(
+        text='spec/GeoFunc.tla (on BSplineRef) is an exact rational reference for tensor-product spline/NURBS functions (values, '
+             'Jacobians in x-last column order, packed Hessians; NURBS through the Leibniz rule on G w = N) and control-net models '
+             'of every constructor/operation; spec/GeoFuncCases.tla enumerates cases (sdim 1-3, degrees 0-3, scalar/vector/matrix, '
+             'rational weights) and checks the declarative meaning of each operation and the circular arcs with Pythagorean '
+             'opening angles exactly; spec/GeoFuncOps.tla is a state machine whose action property OperandsUnchanged is bound by '
+             'byte fingerprints of every live object before/after each real operation; GeoFuncComp covers user functions, '
+             'compositions and physical gradients. Every case is replayed through all evaluation routes of the real code.',
+        note='Named shapes with irrational data and rotate_2d by generic angles are numeric predicates on spec-generated cases '
+             '(1e-12); some Hessians are not computed by the spec (32-bit overflow: 3-D NURBS operation results, 7-point arcs, '
+             'compositions); comparison |x-q| <= 1e-11*max(1,|q|,4 max|sheet|); operation histories exhaustive to depth 2, '
+             'simulated to depth 4. Trusted base: numpy float arithmetic, BSplineRef, Rat.',
+        technique='TLA+ exact rational reference + operation state machine (OperandsUnchanged) enumerated by TLC + replay of every case through all evaluation routes with object fingerprints',
+        design_ref='3 C07'),
 }
 
 NOT_BUILT = 'specification module not built yet (see DESIGN.md section 6); not claimed with a weaker technique'
